@@ -40,16 +40,19 @@ def run(ctx, res):
 
     # ---- R1 ---------------------------------------------------------------------------
     res.floor("C12.R1", 6)
-    callers = sorted(set(f.name for f, c in lib_calls(prog, "block_init")))
-    res.check(callers == ["get_block", "mtbl_reader_init_fd"], "C12.R1", "block_init:callers", "decodable blocks are constructed only by get_block and mtbl_reader_init_fd",
-              "block_init is also called from %s: blocks can reach decoding without the checksum gate" % [c for c in callers if c not in ("get_block", "mtbl_reader_init_fd")])
-    gb_callers = sorted(set(f.name for f, c in lib_calls(prog, "get_block")))
-    res.check(set(gb_callers) <= {"reader_iter_seek", "get_block_at_index"}, "C12.R1", "get_block:callers",
-              "iterators reach block bytes only through get_block", "get_block is called from %s" % gb_callers)
-    # no other reader-side consumer of mapped data: mtbl_decompress only in get_block
-    dc = sorted(set(f.name for f, c in lib_calls(prog, "mtbl_decompress")))
-    res.check(dc == ["get_block"], "C12.R1", "mtbl_decompress:callers", "stored bytes are decompressed only in get_block", "mtbl_decompress is called from %s" % dc)
-    for fn in ("get_block", "mtbl_reader_init_fd"):
+    # the gate functions: whoever constructs a decodable block (calls block_init) - under whatever name - is subject to the
+    # path rule below; helpers they were split into are evaluated as part of them
+    callers = sorted(set(f.name for f, c in lib_calls(prog, "block_init") if not f.helper))
+    res.check(len(callers) >= 2 and all(prog.func(c, R) is not None for c in callers), "C12.R1", "block_init:callers",
+              "decodable blocks are constructed only in reader.c (%s)" % ", ".join(callers),
+              "block_init is called from %s: blocks can reach decoding without the checksum gate" % callers)
+    # no other reader-side consumer of mapped data: stored bytes are decompressed only inside the gate functions
+    dc = sorted(set(f.name for f, c in lib_calls(prog, "mtbl_decompress") if not f.helper))
+    res.check(set(dc) <= set(callers) and bool(dc), "C12.R1", "mtbl_decompress:callers", "stored bytes are decompressed only in the functions that construct blocks",
+              "mtbl_decompress is called from %s" % dc)
+    for fn in callers:
+        if prog.func(fn, R) is None:
+            continue
         f = prog.need(fn, R)
         res.saw(f)
         ev = APE.run(prog, cg, f, bound=APE.BOUND)
@@ -113,79 +116,112 @@ def run(ctx, res):
     # ---- R3 mtbl_verify ------------------------------------------------------------------
     res.floor("C12.R3", 6)
     vu = "src/mtbl_verify.c"
-    vd = prog.func("verify_data_blocks", vu)
     vf = prog.func("verify_file", vu)
-    if vd is None or vf is None:
-        raise BrokenAnalysis("mtbl_verify functions not found")
-    res.saw(vd)
+    if vf is None:
+        raise BrokenAnalysis("mtbl_verify: verify_file not found")
     res.saw(vf)
-    loops = [n for n in walk(vd.body) if n["k"] == "ForStmt"]
-    cnt = vd.params[4]["name"]
-    okloop = False
-    for L in loops:
-        ini = L.get("init")
-        c = strip(L["cond"]) if L.get("cond") else None
-        inc = strip(L["inc"]) if L.get("inc") else None
-        if ini and c is not None and inc is not None and c["k"] == "BinaryOperator":
-            d = [x for x in ini.get("decls", []) if x.get("init") is not None]
-            if d and inc["k"] == "UnaryOperator" and inc["op"] == "++":
-                start = const_val(d[0]["init"])
-                var = d[0]["name"]
-                if canon(c["kids"][0]) == var and canon(c["kids"][1]) == cnt:
-                    okloop = (start == 1 and c["op"] == "<=") or (start == 0 and c["op"] == "<")
-    res.check(okloop, "C12.R3", site(vd, "loop-covers-all-blocks"), "the loop visits exactly count_data_blocks blocks",
-              "the verification loop does not visit every data block (the last or first block is skipped)", vd.loc(vd.body))
-    ev = APE.run(prog, ctx.cg_all, vd, bound=APE.BOUND)
+    # Decided on the paths of verify_file with the tool's internal functions evaluated as part of it (whatever helper walks the
+    # blocks, however the loop is written).  On a path that prints OK (and on every path that returns true):
+    #   * the reader was opened with verify_checksums = true first (index block),
+    #   * every checksum computed on the path was compared equal to a stored 32-bit value,
+    #   * the number of blocks checked, n, is the trailer's block count: the constraints the path puts on the count (loop entry
+    #     and exit tests, the empty-file shortcut) admit n and no other value,
+    #   * no block ran past the data region.
+    # A mismatch or an overrun ends in a false return without OK.
+    evf = APE.run(prog, ctx.cg_all, vf, bound=APE.BOUND, inline=("*static",), max_paths=40000)
     seen_mis = seen_over = False
-    for p in ev.paths:
-        if p.end != "exit":
-            continue
-        evs = list(p.events)
-        r = p.ret()
-        crcs = [e for e in evs if e.kind == "call" and e.a == "mtbl_crc32c"]
-        for ce in crcs:
-            # the comparison of this computed crc with a stored value
-            for e in evs:
-                if e.kind == "branch" and isinstance(e.a, tuple) and APE.vstr(ce.c) in e.a:
-                    other = [x for x in e.a if x != APE.vstr(ce.c)][0]
-                    if not other.startswith("mtbl_fixed_decode32("):
-                        continue
-                    if EQ not in e.b:
-                        seen_mis = True
-                        res.check(r == ("c", 0), "C12.R3", site(vd, "mismatch->false"), "a checksum mismatch makes the function return false",
-                                  "after a checksum mismatch verify_data_blocks returns %s" % APE.vstr(r), vd.loc(ce.node), p.describe(vd))
-        for e in evs:
-            if e.kind == "branch" and isinstance(e.a, tuple) and e.a[1] == vd.params[3]["name"] and e.b == frozenset((GT,)):
-                seen_over = True
-                res.check(r == ("c", 0), "C12.R3", site(vd, "overrun->false"), "a block length running past the data region returns false",
-                          "a block running past the data region is not reported", vd.loc(vd.body), p.describe(vd))
-        if r is not None and r != ("c", 0) and r[0] == "c":
-            # true return: every crc computed on the path was compared equal
-            for ce in crcs:
-                okc = any(e.kind == "branch" and isinstance(e.a, tuple) and APE.vstr(ce.c) in e.a and e.b == frozenset((EQ,)) for e in evs)
-                res.check(okc, "C12.R3", site(vd, "true-only-if-equal"), "true is returned only with every visited block's checksum equal",
-                          "true returned although a block's checksum was not required to match", vd.loc(ce.node), p.describe(vd))
-    res.check(seen_mis and seen_over, "C12.R3", site(vd, "failure-edges"), "mismatch and overrun edges exist", "mismatch edge: %s, overrun edge: %s" % (seen_mis, seen_over))
-    # payload = framed payload (offset + len_len + 4, size) - shared with C11.R1; here: crc over (raw_contents, raw_contents_size)
-    evf = APE.run(prog, ctx.cg_all, vf, bound=APE.BOUND)
+    n_ok = 0
     for p in evf.paths:
         if p.end != "exit":
             continue
-        evs = [e for e in p.events if e.kind == "call"]
-        names = [e.a for e in evs]
-        prints = [e for e in evs if e.a == "printf" and "OK" in APE.vstr(e.b[0])]
-        vcall = [e for e in evs if e.a == "verify_data_blocks"]
-        if prints:
-            c = p.cons.get((APE.vstr(vcall[0].c), "#0")) if vcall else None
-            res.check(c is not None and EQ not in c and p.ret() != ("c", 0), "C12.R3", site(vf, "OK-only-on-true"), "OK is printed only when every block verified",
-                      "mtbl_verify prints OK although verify_data_blocks may have returned false", vf.loc(prints[0].node), p.describe(vf))
-        if vcall:
-            setv = [e for e in evs if e.a == "mtbl_reader_options_set_verify_checksums"]
-            rinit = [e for e in evs if e.a == "mtbl_reader_init_fd"]
-            good = setv and setv[0].b[1] == ("c", 1) and rinit and evs.index(setv[0]) < evs.index(rinit[0]) < evs.index(vcall[0]) and rinit[0].b[1] == setv[0].b[0]
-            res.check(bool(good), "C12.R3", site(vf, "index-verified-first"), "the reader is opened with verify_checksums = true before the data blocks are walked",
-                      "the index block is not verified (reader opened without verify_checksums)", vf.loc(vf.body), p.describe(vf))
-            nret = [v for (a, b), v in p.cons.items() if a == APE.vstr(rinit[0].c) and b == "#0"] if rinit else []
+        evs = list(p.events)
+        calls = [e for e in evs if e.kind == "call"]
+        r = p.ret()
+        crcs = [e for e in calls if e.a == "mtbl_crc32c"]
+        prints_ok = [e for e in calls if e.a in ("printf", "puts", "fprintf") and any("OK" in APE.vstr(x) and "FAIL" not in APE.vstr(x) for x in e.b)]
+        counts = [e for e in calls if e.a == "mtbl_metadata_count_data_blocks"]
+        bytesd = [e for e in calls if e.a == "mtbl_metadata_bytes_data_blocks"]
+        mism = False
+        alleq = True
+        for ce in crcs:
+            rel = None
+            for e in evs:
+                if e.kind == "branch" and isinstance(e.a, tuple) and APE.vstr(ce.c) in e.a:
+                    other = [x for x in e.a if x != APE.vstr(ce.c)]
+                    if other and other[0].startswith("mtbl_fixed_decode32("):
+                        rel = e.b
+            c_ = None
+            for (a_, b_), v in p.cons.items():
+                if APE.vstr(ce.c) in (a_, b_) and (a_.startswith("mtbl_fixed_decode32(") or b_.startswith("mtbl_fixed_decode32(")):
+                    c_ = v
+            if c_ is None or c_ != frozenset((EQ,)):
+                alleq = False
+            if c_ is not None and EQ not in c_:
+                mism = True
+        over = False
+        if bytesd:
+            bsym = APE.vstr(bytesd[0].c)
+            for (a_, b_), v in p.cons.items():
+                if b_ == bsym and v == frozenset((GT,)) and a_ != "#0":
+                    over = True
+                if a_ == bsym and v == frozenset((LT,)) and b_ != "#0":
+                    over = True
+        truthy = r is not None and r[0] == "c" and r[1] != 0
+        if mism:
+            seen_mis = True
+            res.check(not truthy and not prints_ok, "C12.R3", site(vf, "mismatch->false"), "a checksum mismatch ends in a false result without OK",
+                      "after a checksum mismatch mtbl_verify still reports the file as good (returns %s%s)" % (APE.vstr(r) if r else None, ", prints OK" if prints_ok else ""),
+                      vf.loc(crcs[0].node), p.describe(vf))
+            continue
+        if over:
+            seen_over = True
+            res.check(not truthy and not prints_ok, "C12.R3", site(vf, "overrun->false"), "a block length running past the data region ends in a false result",
+                      "a block running past the data region is not reported", vf.loc(vf.body), p.describe(vf))
+            continue
+        if not (prints_ok or truthy):
+            continue
+        n_ok += 1
+        res.check(truthy and bool(prints_ok), "C12.R3", site(vf, "OK-only-on-true"), "OK is printed exactly on the paths that return true",
+                  "mtbl_verify prints OK on a path that returns %s / returns true without OK" % (APE.vstr(r) if r else None), vf.loc(vf.body), p.describe(vf))
+        res.check(alleq, "C12.R3", site(vf, "true-only-if-equal"), "true is returned only with every visited block's checksum equal",
+                  "OK although a block's checksum was not required to match", vf.loc(crcs[0].node) if crcs else vf.loc(vf.body), p.describe(vf))
+        setv = [e for e in calls if e.a == "mtbl_reader_options_set_verify_checksums"]
+        rinit = [e for e in calls if e.a in ("mtbl_reader_init_fd", "mtbl_reader_init")]
+        good = setv and setv[0].b[1] == ("c", 1) and rinit and calls.index(setv[0]) < calls.index(rinit[0]) and rinit[0].b[1] == setv[0].b[0] and \
+            (not crcs or calls.index(rinit[0]) < calls.index(crcs[0]))
+        res.check(bool(good), "C12.R3", site(vf, "index-verified-first"), "the reader is opened with verify_checksums = true before the data blocks are walked",
+                  "the index block is not verified (reader opened without verify_checksums)", vf.loc(vf.body), p.describe(vf))
+        # the block count: which values of the trailer's count does this path admit?
+        if not counts:
+            res.bad("C12.R3", site(vf, "loop-covers-all-blocks"), "the number of blocks checked does not depend on the trailer's block count", vf.loc(vf.body), p.describe(vf))
+            continue
+        csym = APE.vstr(counts[0].c)
+        admits = []
+        for val in range(0, 8):
+            okv = True
+            for (a_, b_), v in p.cons.items():
+                for sym, other, mir in ((a_, b_, False), (b_, a_, True)):
+                    if sym != csym:
+                        continue
+                    m_ = re.match(r"^#(-?\d+)$", other)
+                    if not m_:
+                        continue
+                    k_ = int(m_.group(1))
+                    rel = LT if val < k_ else (EQ if val == k_ else GT)
+                    if mir:
+                        rel = {LT: GT, GT: LT, EQ: EQ}[rel]
+                    if rel not in v:
+                        okv = False
+            if okv:
+                admits.append(val)
+        if not admits:
+            continue          # the tests on the count contradict each other over the integers: no such run exists
+        res.check(admits == [len(crcs)], "C12.R3", site(vf, "loop-covers-all-blocks"), "the path checks exactly as many blocks as the trailer counts",
+                  "a path that reports OK after checking %d block(s) is taken for block counts %s: the first or last block is skipped" % (len(crcs), admits[:6]),
+                  vf.loc(vf.body), p.describe(vf))
+    res.check(seen_mis and seen_over, "C12.R3", site(vf, "failure-edges"), "mismatch and overrun edges exist", "mismatch edge: %s, overrun edge: %s" % (seen_mis, seen_over))
+    if n_ok == 0:
+        raise BrokenAnalysis("mtbl_verify: no path that reports a verified file")
     mainf = prog.func("main", vu)
     if mainf is not None:
         evm = APE.run(prog, ctx.cg_all, mainf, bound=APE.BOUND)
